@@ -23,6 +23,7 @@ type ClientOp struct {
 
 	InvokeSeq uint64
 	InvokeNs  int64
+	SubmittedNs int64 // when SubmitOperation returned the future (0: it has not returned)
 	// SubmitSeq: SubmitOperation returned (the future exists).
 	Returned  bool
 	ReturnSeq uint64
@@ -79,6 +80,7 @@ func (c *Cluster) submit(client int, inc *Incarnation, typ raft.OperationType, t
 		if simrt.Dead() {
 			return
 		}
+		op.SubmittedNs = c.Sim.Now()
 		res := fut.Await()
 		if simrt.Dead() {
 			return
